@@ -269,7 +269,7 @@ def gen_tsamples(rng, dt, tmax_hint):
 
 
 def gen_script(rng, option, space_kind=None, dyadic=None, policy=None, static=False, degenerate=False, sub_molecule=False,
-               units=True, max_steps=120, mode=None, zero_tmax=None, quantity=None, many_reactions=False):
+               units=True, max_steps=120, mode=None, zero_tmax=None, quantity=None, many_reactions=False, huge_ratio=False, nearmiss=False):
     """(script description for life_child, info) — a VALID script.  `units`: True (half of the scripts state their time
     quantities in their own units and use a units system with another time unit and a quantity unit that may differ from
     molecule), False, or "force"; `quantity`: force that quantity unit.
@@ -281,14 +281,30 @@ def gen_script(rng, option, space_kind=None, dyadic=None, policy=None, static=Fa
         dt = 2.0 ** (-rng.randint(2, 7))
     else:
         dt = rng.choice([0.01, 0.003, 0.07, 0.0123, 0.1])
+    if nearmiss:
+        # requested times i*dt (products) against a clock that ACCUMULATES dt: some steps miss their request by one ulp
+        # from below (0.1 eight times is 0.7999999999999999 < 0.8), so the covering record is the NEXT step
+        dyadic, dt, policy, units = False, rng.choice([0.1, 0.01, 0.07, 0.003]), "on_t_sample", False
+    if huge_ratio:
+        # t / sampling_interval beyond 2^31 within a handful of steps: dt = 1 s, interval around a nanosecond
+        dyadic, dt, policy, units, zero_tmax = True, 1.0, "on_interval", False, False
     system, nsp, n = gen_system(rng, stochastic, space_kind, static=static, degenerate=degenerate, sub_molecule=sub_molecule, dt=dt,
                                 many_reactions=many_reactions)
-    nsteps = rng.randint(1, max_steps)
+    if huge_ratio:
+        for r in system["network"]["reactions"]:
+            r["k+"] = 0.05 if not isinstance(r["k+"], dict) else {"a": 0.05, "b": 0}
+            if "k-" in r:
+                r["k-"] = 0.02
+    nsteps = rng.randint(1, max_steps) if not huge_ratio else rng.randint(3, 6)
     tmax = dt * nsteps if rng.random() < 0.5 else dt * (nsteps + rng.choice([0.25, 0.5, 0.9]))
     policy = policy or rng.choice(POLICIES)
     r_zero = rng.random() < 0.06
     zero_tmax = r_zero if zero_tmax is None else zero_tmax
     ts, style = gen_tsamples(rng, dt, tmax)
+    if nearmiss:
+        nsteps = max(nsteps, 25)
+        tmax = dt * nsteps + dt * 0.5
+        ts, style, zero_tmax = [i * dt for i in range(nsteps + 1)], "multiples", False
     if zero_tmax:
         tmax = 0.0
     kw = {"t_sample": ts, "time_step": dt, "sampling_policy": policy, "rng_seed": rng.randint(0, 2 ** 31 - 1)}
@@ -297,7 +313,12 @@ def gen_script(rng, option, space_kind=None, dyadic=None, policy=None, static=Fa
         kw["t_max"] = tmax
     vary_units = bool(units) and (units == "force" or rng.random() < 0.5)
     secs = {"time_step": dt, "t_max": kw.get("t_max"), "t_sample": list(ts)}
-    if policy == "on_interval" or rng.random() < 0.3:
+    if huge_ratio:
+        kw["sampling_interval"] = rng.choice([1e-9, 1e-10, 5e-10, 2.0 ** -31])
+        kw["t_max"] = tmax if tmax > 0 else 4.0
+        secs["t_max"] = kw["t_max"]
+        explicit_tmax = True
+    elif policy == "on_interval" or rng.random() < 0.3:
         if dyadic and not vary_units:
             kw["sampling_interval"] = rng.choice([dt, 2 * dt, 2.5 * dt, 0.25 * dt, 7 * dt, dt * 1.5])
         else:
@@ -334,7 +355,7 @@ def gen_script(rng, option, space_kind=None, dyadic=None, policy=None, static=Fa
         kw["__from_dict__"] = True
     info = {"option": option, "policy": policy, "dyadic": dyadic and tu == "s" and "units_system" not in kw, "style": style, "nsp": nsp, "n": n,
             "space": system["space"]["type"], "mode": mode, "static": static, "explicit_tmax": explicit_tmax, "units": "units_system" in kw,
-            "n_directed_reactions": 2 * len(system["network"]["reactions"]), "many_reactions": many_reactions,
+            "n_directed_reactions": 2 * len(system["network"]["reactions"]), "many_reactions": many_reactions, "huge_ratio": huge_ratio,
             "seed_as": kw.get("__seed_as__", "int"), "from_dict": bool(kw.get("__from_dict__")) and "units_system" not in kw and not isinstance(kw["t_sample"], dict),
             "expect": expect, "ts_form": form, "quantity": (kw["units_system"]["quantity"] if "units_system" in kw else "molecule")}
     return {"system": system, "kw": kw}, info
